@@ -261,3 +261,7 @@ def run(ck, facts, tier):
             ck.ok(R, "allowed-path-returns-ok")
         else:
             ck.violation(R, "allowed-path-returns-ok", ob.where(), "an allowed impl can still reach the error return")
+        # ... and Ok(()) is returned only behind the solver's yes: no impl (negative, marker, ..) is accepted without being asked about
+        oks = [b_ for b_, j_, st_ in cfg.agg_sites("core::result::Result", "Ok")]
+        n_ok = guard_sites(ck, R, ob, oks, t_edges, "Ok(())", "solve(..).is_some()")
+        ck.floor(R, "ok-sites", n_ok, 1)
